@@ -52,6 +52,20 @@ static long os_random(const char *fn, void *buf, size_t len, int entropy_style)
         emit_os(fn, "OK", entropy_style ? 0 : (long)len, (long)len);
         return entropy_style ? 0 : (long)len;
     }
+    if (!strncmp(it, "PARTIAL", 7)) {
+        /* getrandom() may deliver fewer bytes than asked (it is then not an error); getentropy() never does */
+        const char *c = strchr(it, ':'); long k = c ? atol(c + 1) : 16;
+        if (entropy_style || k < 1 || (size_t)k >= len) {
+            if (len >= 32 || got + len > 32) got = 0;
+            memcpy(buf, osbytes + got, len < 32 ? len : 32);
+            emit_os(fn, "OK", entropy_style ? 0 : (long)len, (long)len);
+            return entropy_style ? 0 : (long)len;
+        }
+        if (len >= 32 || got + len > 32) got = 0;
+        memcpy(buf, osbytes + got, (size_t)k); got += (size_t)k;
+        emit_os(fn, "PARTIAL", k, (long)len);
+        return k;
+    }
     if (!strcmp(it, "EINTR")) { emit_os(fn, "EINTR", -1, (long)len); errno = EINTR; return -1; }
     if (!strcmp(it, "EAGAIN")) { emit_os(fn, "EAGAIN", -1, (long)len); errno = EAGAIN; return -1; }
     /* a permanent error may have scribbled into the buffer before failing */
